@@ -307,7 +307,9 @@ let c07_in_probe = ref false
 let c07_desync = ref false   (* after a non-linearizable round the model state is unknown: skip the rest of the history *)
 
 let c15_crash : (int * bool * string list) option ref = ref None
+let c15_crash_dirs : (int * string list) option ref = ref None   (* directory-changing calls logged, how many happened *)
 let c15_pred : M.hstate option ref = ref None
+let c15_dirpred : string list option ref = ref None   (* common prefixes without a key the directory model predicts *)
 
 let is_spec_tag (r : M.n list) = let s = string_of_bytes r in String.length s >= 2 && String.sub s 0 2 = "S:"
 let spec_clean l = not (List.exists is_spec_tag l)
@@ -350,7 +352,8 @@ let c07 lineno (f : string array) =
   match f.(1) with
   | "H" ->
     hist lineno f;  (* parses the config and resets the single-state machinery *)
-    c07_cands := [!hist_state]; c07_in_round := false; c07_desync := false; c15_crash := None; c15_pred := None
+    c07_cands := [!hist_state]; c07_in_round := false; c07_desync := false; c15_crash := None; c15_pred := None;
+    c15_crash_dirs := None; c15_dirpred := None
   | "E" -> print_string "SKIP\n"
   | _ when !c07_desync -> print_string "SKIP\n"
   | "HANG" -> Printf.printf "FAIL\t%d\tmodel=-\tspec=hang:%s\n" lineno (String.map (fun c -> if c = ' ' then '-' else c) (raw_of_hex f.(2)))
@@ -361,6 +364,9 @@ let c07 lineno (f : string array) =
   | "CRASH" ->
     (* label, position in the model's call sequence, died inside that call?, calls logged by the harness *)
     c15_crash := (if Array.length f > 5 then Some (int_of_string f.(3), bool_of_field f.(4), List.map raw_of_hex (split_on ',' f.(5))) else None);
+    (* ... and the same for the directory side: how many directory-changing calls happened, their names *)
+    c15_crash_dirs := (if Array.length f > 7 then Some (int_of_string f.(6), (if f.(7) = "-" || f.(7) = "" then [] else List.map raw_of_hex (split_on ',' f.(7)))) else None);
+    c15_dirpred := None;
     print_string "SKIP\n"
   | "GOOD" -> print_string "OK\n"
   | "BAD" -> Printf.printf "FAIL\t%d\tmodel=-\tspec=%s\n" lineno (String.map (fun c -> if c = ' ' || c = '\t' then '-' else c) (raw_of_hex f.(2)))
@@ -383,11 +389,32 @@ let c07 lineno (f : string array) =
        let after = fst (M.hist_step md5 !hist_cfg hs o ob) in
        let mcalls = List.map string_of_bytes (M.crash_calls md5 hs.M.hs_model after.M.hs_model b k) in
        c15_pred := Some (M.with_model hs (M.crash_state md5 hs.M.hs_model after.M.hs_model b k (nat_of_int n) partial));
-       if mcalls = calls then print_string "OK\n"
-       else Printf.printf "FAIL\t%d\tmodel=M:crash-model-call-sequence:code=%s:model=%s\tspec=-\n" lineno
-           (String.concat "+" calls) (String.concat "+" mcalls)
+       (* the directory model: its call sequence, and the common prefixes without a key it predicts *)
+       let dir_bad = (match !c15_crash_dirs with
+           | Some (nd, dcalls) ->
+             let mdcalls = List.map string_of_bytes (M.crash_dir_calls hs.M.hs_model after.M.hs_model b k) in
+             c15_dirpred := Some (List.sort compare (List.map string_of_bytes (M.crash_phantoms hs.M.hs_model after.M.hs_model b k (nat_of_int nd))));
+             if mdcalls = dcalls then None else Some (Printf.sprintf "M:crash-model-directory-call-sequence:code=%s:model=%s" (String.concat "+" dcalls) (String.concat "+" mdcalls))
+           | None -> None) in
+       let obj_bad = if mcalls = calls then None
+         else Some (Printf.sprintf "M:crash-model-call-sequence:code=%s:model=%s" (String.concat "+" calls) (String.concat "+" mcalls)) in
+       (match obj_bad, dir_bad with
+        | None, None -> print_string "OK\n"
+        | _ -> Printf.printf "FAIL\t%d\tmodel=%s\tspec=-\n" lineno
+                 (String.concat "," (List.filter_map (fun x -> x) [obj_bad; dir_bad])))
      | _ -> c15_pred := None; print_string "SKIP\n");
-    c15_crash := None
+    c15_crash := None; c15_crash_dirs := None
+  | "DIRS" ->
+    (* the common prefixes of the next process's delimiter listing that have no key: the property wants
+       none; the directory model says which ones a kill at that call leaves *)
+    let obs = List.sort compare (if f.(2) = "-" || f.(2) = "" then [] else List.map raw_of_hex (split_on ',' f.(2))) in
+    let msg = String.map (fun c -> if c = ' ' || c = '\t' then '-' else c) (raw_of_hex f.(3)) in
+    let m = (match !c15_dirpred with
+        | Some pred when pred <> obs -> Printf.sprintf "crash-model:directories-without-a-key:predicted=[%s]:found=[%s]" (String.concat "+" pred) (String.concat "+" obs)
+        | _ -> "-") in
+    c15_dirpred := None;
+    if obs = [] && m = "-" then print_string "OK\n"
+    else Printf.printf "FAIL\t%d\tmodel=%s\tspec=%s\n" lineno m (if obs = [] then "-" else "S:common-prefix-without-a-key-" ^ msg)
   | "RB" -> c07_in_round := true; c07_in_probe := false; c07_round := []; c07_probes := []; print_string "SKIP\n"
   | "RP" -> c07_in_probe := true; print_string "SKIP\n"
   | "RE" ->
